@@ -31,7 +31,7 @@ func init() { register(c02{}) }
 func (c02) ID() string    { return "C02" }
 func (c02) Level() string { return "exploration" }
 func (c02) Rule() string {
-	return "case = a set of registered tags (1-4 segments over a small vocabulary so that prefixes are shared, with/without leading underscore, plus the two built-in tags) x tag lists (literal tags, wildcards P_* for proper prefixes at several depths, occasionally an ill-formed wildcard, an empty list or the same entry in two loggers) on up to 4 loggers plus an optional root (sometimes illegally listing tags), rendered in a random key spelling; Go's map iteration order at all nine range-over-map sites of Refresh is replaced by a seeded permutation. Oracle: reference longest-prefix matcher and the four error rules; observed by logging one event through every registered tag and looking at which logger's recording appender (or the built-in console) received it. Non-trivial = at least one tag resolved through a wildcard or a Refresh error was expected; distinct = distinct hashes of (tags, lists, root, map permutation seed)."
+	return "case = a set of registered tags (1-4 segments over a small vocabulary so that prefixes are shared, with/without leading underscore, plus the two built-in tags) x tag lists (literal tags, wildcards P_* for proper prefixes at several depths, occasionally an ill-formed wildcard, an empty list or the same entry in two loggers) on up to 4 loggers plus an optional root (sometimes illegally listing tags; one case in six with 8-20 tags and up to 36 entries, kept valid), rendered in a random key spelling with the lists written directly or through ${property}; a quarter of the cases are preceded by a Refresh that fails after its root logger was built; Go's map iteration order at all nine range-over-map sites of Refresh is replaced by a seeded permutation. Oracle: reference longest-prefix matcher and the four error rules; observed by logging one event through every registered tag and looking at which logger's recording appender (or the built-in console) received it. Non-trivial = at least one tag resolved through a wildcard or a Refresh error was expected; distinct = distinct hashes of (tags, lists, root, map permutation seed)."
 }
 func (c02) Decode(raw json.RawMessage) (any, error) {
 	var s C02Scn
